@@ -30,7 +30,7 @@ func init() {
 			"values are kept inside the range of the declared type/format for parameter/header cases, as the property's quantifier says",
 			"sampled input space",
 		},
-		quick: 300000, thorough: 8000000,
+		quick: 300000, thorough: 30000000,
 	}})
 }
 
@@ -110,8 +110,40 @@ func (p *c13) gen(r *lib.Rand) *numCase {
 	n.op = []string{"max", "maxx", "min", "minx", "mult"}[r.Intn(5)]
 	if n.op == "mult" {
 		n.cText = c13Factors[r.Intn(len(c13Factors))]
+		if r.P(0.4) {
+			// a random decimal factor with at most 6 fractional digits
+			n.cText = strings.TrimRight(strings.TrimRight(fmt.Sprintf("%d.%06d", r.Intn(50), r.Intn(1000000)), "0"), ".")
+			if r.P(0.3) {
+				n.cText = fmt.Sprintf("%d", r.Range(1, 100000))
+			}
+			if n.cText == "0" || n.cText == "" {
+				n.cText = "0.5"
+			}
+		}
 	} else {
 		n.cText = c13Bounds[r.Intn(len(c13Bounds))]
+		if r.P(0.5) {
+			// a random bound: +-(2^k + small) or a dyadic fraction, exactly representable, within +-(2^53-1)
+			k := r.Intn(53)
+			v := new(big.Rat).SetInt(new(big.Int).Lsh(big.NewInt(1), uint(k)))
+			v.Add(v, new(big.Rat).SetInt64(int64(r.Range(-3, 3))))
+			if r.P(0.4) && k < 40 {
+				v.Add(v, big.NewRat(int64(r.Range(1, 1023)), 1024))
+			}
+			if r.Bool() {
+				v.Neg(v)
+			}
+			if new(big.Rat).Abs(v).Cmp(rat("9007199254740991")) <= 0 {
+				if _, exact := v.Float64(); exact {
+					n.cText = v.FloatString(10)
+					if v.IsInt() {
+						n.cText = v.Num().String()
+					} else {
+						n.cText = strings.TrimRight(n.cText, "0")
+					}
+				}
+			}
+		}
 	}
 	n.cr = rat(n.cText)
 	n.c, _ = n.cr.Float64()
